@@ -479,6 +479,20 @@ func init() {
 	}
 	sb.WriteString("try {\n\tx = x / (b - b)\n} catch e {\n\tx += 1000\n} finally {\n\tx += 1\n}\nfor i := 0; i < 3; i++ { if i == 1 { continue }; x += i }\nreturn x\n")
 	v1Fixed = append(v1Fixed, sb.String())
+	// a function that fits into 64 KiB in the version-1 layout (2-byte jump operands) but not after the
+	// operands are widened: relocated targets beyond 65535
+	sb.Reset()
+	sb.WriteString("param (a, b)\nx := 0\n")
+	for i := 0; i < 3400; i++ {
+		fmt.Fprintf(&sb, "if a == %d { x += %d }\n", i%7, i%5)
+	}
+	sb.WriteString("try {\n\tx = x / (b - b)\n} catch e {\n\tx += 1000\n} finally {\n\tx += 1\n}\nfor i := 0; i < 3; i++ { if i == 1 { continue }; x += i }\nreturn a ? x : [x][b]\n")
+	v1Fixed = append(v1Fixed, sb.String())
+	// function literals with identical bodies at different places: equal instructions, different
+	// source maps; an error in the later ones must be reported at their own lines
+	v1Fixed = append(v1Fixed,
+		"param (a, b)\nfirst := func(x) {\n\tif x { return 1 }\n\treturn 10 / x\n}\n\nsecond := func(x) {\n\tif x { return 1 }\n\treturn 10 / x\n}\n\n\nthird := func(x) {\n\tif x { return 1 }\n\treturn 10 / x\n}\nreturn a ? second(0) : (b ? third(0) : first(0))\n",
+		"param (a, b)\nfs := [func(x) {\n\ttry { return x.k.j } finally { x = 1 }\n}, func(x) {\n\ttry { return x.k.j } finally { x = 1 }\n},\nfunc(x) {\n\ttry { return x.k.j } finally { x = 1 }\n}]\nreturn fs[a ? 2 : 1](b)\n")
 }
 
 // malformed inputs for the converter (model correspondence on the panic / error branches)
